@@ -391,6 +391,52 @@ def judge(v, jobs, results, counters):
                 v.violation(got["key"], got["what"], {"rec": small, "menu_from": "LifecycleGen", "got": got})
 
 
+def impl_reseed(job):
+    """'seeding the generator and simulating twice gives identical output' for every random primitive and every delay sampler at
+    parameter values beyond those of the menu (gamma shapes below, at and above 1; large and small normals): seed, draw, seed
+    again, draw again - the two sequences are bitwise equal, and a delay simulation with such delays repeats bitwise."""
+    import numpy as np
+    from bioscrape.types import Model
+    from bioscrape.simulator import py_simulate_model
+    import bioscrape.random as br
+    out = []
+    for sd in job["seeds"]:
+        res = {"ok": True}
+        try:
+            prims = [("uniform", lambda: br.py_uniform_rv()), ("exponential", lambda: br.py_exponential_rv(2.5)), ("normal", lambda: br.py_normal_rv(1.0, 3.0)),
+                     ("binomial", lambda: br.py_binom_rnd(17, 0.3)), ("binomial_f", lambda: br.py_binom_rnd_f(9.0, 0.6)),
+                     ("approx_binomial", lambda: br.py_approx_binom_rnd(400, 0.25))]
+            for k in (0.3, 0.75, 1.0, 1.5, 4.0, 25.0):
+                prims.append(("gamma(k=%g)" % k, (lambda kk: (lambda: br.py_gamma_rv(kk, 0.5)))(k)))
+                prims.append(("erlang(k=%g)" % k, (lambda kk: (lambda: br.py_erlang_rv(kk, 0.5)))(k)))
+            for name, fn in prims:
+                br.py_seed_random(sd)
+                a = [fn() for _ in range(40)]
+                br.py_seed_random(sd)
+                b_ = [fn() for _ in range(40)]
+                if a != b_ and not (np.isnan(a).all() and np.isnan(b_).all()):
+                    res = {"ok": False, "what": "reseed:" + name.split("(")[0], "detail": "%s: two sequences drawn after py_seed_random(%d) differ at draw %d" % (
+                        name, sd, next(i for i in range(40) if a[i] != b_[i]))}
+                    break
+            if res["ok"]:
+                tp = np.linspace(0, 6, 13)
+                for dtype, dd in (("gamma", {"k": 0.75, "theta": 1.5}), ("gamma", {"k": 1.0, "theta": 0.5}), ("gamma", {"k": 3.5, "theta": 0.25}),
+                                  ("gaussian", {"mean": 1.0, "std": 0.75}), ("fixed", {"delay": 0.7})):
+                    m = Model(species=["A", "B", "C"], reactions=[(["A"], [], "massaction", {"k": 0.8}, dtype, [], ["B"], dict(dd)), (["B"], ["C"], "massaction", {"k": 0.3})],
+                              initial_condition_dict={"A": 30, "B": 0, "C": 0})
+                    runs = []
+                    for _ in range(2):
+                        br.py_seed_random(sd + 3)
+                        runs.append(np.array(py_simulate_model(tp, Model=m, stochastic=True, delay=True, return_dataframe=False).py_get_result()))
+                    if not np.array_equal(runs[0], runs[1]):
+                        res = {"ok": False, "what": "reseed:delay-simulation:" + dtype, "detail": "delay simulation with a %s delay %r differs between two runs from seed %d" % (dtype, dd, sd + 3)}
+                        break
+        except BaseException as e:  # noqa
+            res = {"ok": False, "what": "reseed:exception", "detail": repr(e)[:300]}
+        out.append(res)
+    return {"out": out}
+
+
 def run(tier):
     t0 = time.time()
     seed = common.seed()
@@ -421,9 +467,20 @@ def run(tier):
     results = pool.run_jobs("c08", "impl_replay", jobs, nworkers=NW)
     counters = {}
     judge(v, jobs, results, counters)
+    rjobs = [{"seeds": [seed * 977 + 13 * j + i for i in range(2 if tier == "quick" else 8)]} for j in range(4)]
+    n_reseed = 0
+    for job, res in zip(rjobs, pool.run_jobs("c08", "impl_reseed", rjobs, nworkers=4)):
+        if "harness_exception" in res:
+            raise common.MachineryError("C08 reseed harness failed: %s\n%s" % (res["harness_exception"], res.get("tb", "")))
+        for i, sd in enumerate(job["seeds"]):
+            got = {"ok": False, "what": "reseed:crash", "detail": "worker died: %s" % res["crash"]} if "crash" in res else res["out"][i]
+            if got["ok"]:
+                n_reseed += 1
+            else:
+                v.violation(got["what"], got["detail"], {"reseed_seed": sd})
     rc = v.finish()
     s = recs[len(recs) // 2] if recs else {"steps": []}
-    cov = {"states": states, "transitions": trans, "traces_validated_against_impl": counters.get("ok", 0),
+    cov = {"states": states, "reseed_sequences_of_every_primitive_and_delay_sampler": n_reseed, "transitions": trans, "traces_validated_against_impl": counters.get("ok", 0),
            "samples": [{"fam": s.get("fam"), "ops": [[x["op"], x["o"], x["n"], x["s"], x["t"], x["out"]] for x in s["steps"]][:14]}],
            "exhaustive": True, "model_checking_runs": mc, "generation": gen, "histories_generated": len(recs),
            "histories_by_family": {"model": counters.get("ok_model", 0), "lineage": counters.get("ok_lineage", 0)},
@@ -445,6 +502,13 @@ def run(tier):
 
 def replay(path):
     case = json.load(open(path))["case"]
+    if "reseed_seed" in case:
+        res = pool.run_jobs("c08", "impl_reseed", [{"seeds": [case["reseed_seed"]]}], nworkers=1)[0]
+        print(json.dumps(res, indent=1)[:2000])
+        if "crash" in res or not res["out"][0].get("ok"):
+            print("VIOLATION property=%s replay=%s" % (PROP, path))
+            return 1
+        return 0
     menu = get_menu()
     res = pool.run_jobs("c08", "impl_replay", [{"menu": menu, "recs": [case["rec"]], "final": True}], nworkers=1)[0]
     print(json.dumps(res, indent=1)[:4000])
